@@ -166,7 +166,8 @@ class XsdGroup(XsdComponent, MutableSequence[ModelParticleType],
 
     def is_emptiable(self) -> bool:
         if self.model == 'choice':
-            return self.min_occurs == 0 or not self or any(item.is_emptiable() for item in self)
+            return self.min_occurs == 0 or not self or \
+                any(item.is_emptiable() for item in self if item.max_occurs != 0)
         else:
             return self.min_occurs == 0 or not self or all(item.is_emptiable() for item in self)
 
